@@ -3,6 +3,7 @@ import Hgxv.Proofs.C11Classes
 import Hgxv.Proofs.C11EsuRoot
 import Hgxv.Proofs.C11Census
 import Hgxv.Proofs.C11Dir
+import Hgxv.Proofs.C11DirIso
 import Hgxv.Proofs.C11Relabel
 import Hgxv.Proofs.C11Cut
 /-! # C11 - motif census equals exhaustive enumeration and is relabelling-invariant
@@ -210,16 +211,23 @@ theorem C11_dir_canonical (n : Nat) (hn : n = 3 ∨ n = 4) (E : DHG) :
   rw [hk]
   exact dcanon_min hn _ (dpattern_wf _ hlen) p hp
 
-/-- The representative depends only on the isomorphism type of the labelled pattern: relabelling the
-pattern (all nodes are ranks `1..n`) does not change its canonical form.
-
-Full statement aimed at (NOT proved here, exercised by the correspondence check only):
-`dirCensus n (E.map (relabelD π))` is a permutation of `dirCensus n E` for every injective `π`.
-Missing link: the labelled pattern of the relabelled node set is `drelabel p` of the original one
-(with `p` the permutation that sorts the images). -/
-theorem C11_dir_iso_invariant_partial (n : Nat) (hn : n = 3 ∨ n = 4) (pat : List DEdge) (hw : WFPat n pat)
+/-- the representative depends only on the isomorphism type of the labelled pattern: relabelling a
+pattern over the ranks `1..n` does not change its canonical form -/
+theorem C11_dir_canon_invariant (n : Nat) (hn : n = 3 ∨ n = 4) (pat : List DEdge) (hw : WFPat n pat)
     (p : List Nat) (hp : p ∈ perms (List.range n)) : dcanon n (drelabel p pat) = dcanon n pat :=
   dcanon_relabel hn pat hw p hp
+
+/-- the directed census depends only on the isomorphism type of the directed hypergraph: renaming the
+nodes by any injective `π` (`relabelDHG π E`: both sides of every hyperedge mapped and re-sorted) yields
+the same (canonical pattern, count) pairs, possibly listed in another order.  `DWF E`: distinct
+hyperedges with strictly increasing sides, as `DirectedHypergraph.get_edges()` returns them. -/
+theorem C11_dir_iso_invariant (n : Nat) (hn : n = 3 ∨ n = 4) (E : DHG) (hE : DWF E) (π : Nat → Nat)
+    (hπ : ∀ a b, π a = π b → a = b) : (dirCensus n (relabelDHG π E)).Perm (dirCensus n E) :=
+  dirCensus_relabel hπ hn hE
+
+example : DWF [([0],[1,2]), ([0,1],[2]), ([3],[0,1,2,4])] := ⟨by decide, by decide⟩
+example : dirCensus 3 (relabelDHG (fun x => 10 - x) [([0],[1,2]), ([0,1],[2]), ([3],[0,1,2,4])])
+    = [([([1],[2,3]), ([1,2],[3])], 1)] := by decide
 
 /-- directed hyperedges with more than `n` nodes are ignored -/
 theorem C11_dir_ignores_large (n : Nat) (E : DHG) :
